@@ -3,6 +3,7 @@ import MagpyVerif.Model.Display
 import MagpyVerif.Model.DisplayTrig
 import MagpyVerif.Model.DisplayIdx
 import MagpyVerif.Model.DisplayGroup
+import MagpyVerif.Model.DisplayArrow
 import Driver.KernFam
 import Driver.Parse
 
@@ -66,6 +67,16 @@ def runTrig (cmd : String) : P String := do
       | .error e => pure ("err " ++ errName e)
       | .ok l => pure (verts l)
   | "circ" => do let N ← nat; let d ← flt; pure (verts (circleTrace N d))
+  | "arrowc" => do
+      let sign ← flt; let d ← flt; let size ← flt; let scaled ← nat; let ang ← flt
+      pure (verts (arrowOnCircle sign d size (scaled != 0) ang))
+  | "arrowl" => do
+      let sign ← flt; let size ← flt; let apos ← flt; let nrm ← flt
+      pure (verts (arrowedLineLocal sign size apos nrm))
+  | "pixels" => do
+      let scaled ← nat; let psize ← flt; let dimExt ← flt; let m ← nat
+      let ps ← many m KernFam.v3
+      pure (verts (sensorPixels ps (scaled != 0) psize dimExt))
   | "polyl" => do
       let m ← nat
       let vs ← many m KernFam.v3
